@@ -91,17 +91,22 @@ def _optimize_operator_call_attr(  # pylint: disable=too-many-return-statements
             "is_not": (ast.IsNot, ast.NotEq),
         }.get(fn.attr)
         if isop is not None:
-            isoper, eqoper = isop
+            isoper, _ = isop
             arg1, arg2 = node.args
             assert len(node.args) == 2
-            oper = (
-                eqoper if any(_needs_eq_operator(arg) for arg in node.args) else isoper
-            )
-            return ast.Compare(arg1, [oper()], [arg2])
+            if any(_needs_eq_operator(arg) for arg in node.args):
+                # `x is 1.0` is a SyntaxWarning in Python and `x == 1.0` does not mean
+                # the same thing (1 == 1.0 == True), so keep the function call.
+                return node
+            return ast.Compare(arg1, [isoper()], [arg2])
 
         if fn.attr == "contains":
             arg1, arg2 = node.args
             assert len(node.args) == 2
+            if not any(isinstance(arg, (ast.Constant, ast.Name)) for arg in node.args):
+                # `b in a` evaluates `b` before `a`, the reverse of the call's argument
+                # order, which is observable if both operands have effects.
+                return node
             return ast.Compare(arg2, [ast.In()], [arg1])
 
         if fn.attr == "delitem":
